@@ -139,7 +139,7 @@ func TestVerif_C32(t *testing.T) {
 	if venum.Thorough() {
 		shapes = append(shapes, shape{5, 2, 2, 0, 0}, shape{4, 1, 2, 2, 1}, shape{5, 2, 8, 2, 1})
 	}
-	devBound := venum.QT(2, 2)
+	devBound := venum.QT(2, 3)
 	preBound := venum.QT(1, 1)
 	venum.Explore(t, venum.Cfg{Name: "range-fetch-schedules-x-faults", DevBound: devBound, PreemptBound: preBound, Shardable: true, CheckDeterminism: true},
 		func(x *venum.X) {
